@@ -247,6 +247,11 @@ def check_C01(ctx):
         _checked_history(ctx, h, rng.randint(10, 80))
         ctx.case(('history', k, len(h.s.lines)))
         h.finish(SECTIONS_L3, 'C01 history')
+    # 2a. wide managers (30-80 variables, thousands of nodes)
+    for _ in range(2 if ctx.tier == 'quick' else 12):
+        if ctx.time_left() < 10:
+            break
+        big_history(ctx, 'C01').finish(SECTIONS_L3, 'C01 wide history')
     # 2b. results remembered across a collection for re-used node numbers
     stale_cache_templates(ctx, 100 if ctx.tier == 'quick' else 400, 'C01')
     # 3. the `Function` operators of dd.autoref
@@ -350,6 +355,93 @@ def checked_subst_history(ctx, h, steps, kinds):
         else:
             h.step(dict(var=4, apply=6, ite=1, hold=3, release=4, gc=6, swap=0.5, order=0.5))
             h.prune()
+
+
+def big_history(ctx, label, steps=None):
+    """One history on a WIDE manager (30-80 variables, diagrams of hundreds to thousands of
+    nodes, node numbers and counts well beyond the small cases): every connective / ITE result is
+    compared on 128 random assignments (`SampledTT`), structure and counts after every few steps,
+    exact state against the model at the end."""
+    from lib import SampledTT
+    rng = ctx.rng
+    nv = rng.randint(30, 80)
+    names = [f'y{i:02d}' for i in range(nv)]
+    order = names[:]
+    rng.shuffle(order)
+    h = History(ctx, order)
+    st = SampledTT(h.b, names, 128, rng)
+    for n in rng.sample(names, min(nv, 24)):
+        h.add(h.s.op(0, 'var', n))
+    # one large diagram: a conjunction of equivalences between variables that are far apart in the
+    # order (exponential in the number of pairs): thousands of nodes, held throughout
+    m = rng.randint(8, 10) if ctx.tier == 'quick' else rng.randint(9, 13)
+    lv = sorted(order[:2 * m], key=order.index)
+    eq = 1
+    for i in range(m):
+        a = h.s.val(h.s.op(0, 'var', lv[i]))
+        b_ = h.s.val(h.s.op(0, 'var', lv[i + m]))
+        e = h.s.val(h.s.op(0, 'apply', 'equiv', a, b_))
+        eq = h.s.val(h.s.op(0, 'apply', 'and', eq, e))
+    h.add(f'ok {eq}')
+    h.hold(eq)
+    ctx.count('big-history:peak-nodes', len(h.b._succ))
+    for i in range(steps or rng.randint(150, 400)):
+        r = rng.random()
+        h.prune()
+        if len(h.pool) < 3:
+            h.add(h.s.op(0, 'var', rng.choice(names)))
+            continue
+        if r < 0.55:
+            cn = rng.choice(list(CONNECTIVES))
+            al = rng.choice(ALIASES[cn])
+            # prefer recent results: the diagrams grow
+            u = rng.choice(h.pool[-12:]) if rng.random() < 0.7 else h.pick()
+            v = h.pick()
+            st.fresh()
+            want = CONNECTIVES[cn](st, st.of(u), st.of(v)) & st.full
+            ans = h.s.op(0, 'apply', al, u, v)
+            res = h.add(ans)
+            ctx.evaluations += 1
+            if res is None or st.fresh().of(res) != want:
+                ctx.violation(f'apply({al!r}) wrong on a wide manager', dict(
+                    nvars=nv, nodes=len(h.b._succ), lines=list(h.s.lines), got=ans,
+                    tags=dict(call='apply-wide')))
+                return h
+            if len(h.b._succ) > 20000:
+                # keep it fast: drop what is not held
+                h.s.op(0, 'gc')
+                h.prune()
+        elif r < 0.65:
+            g, u, v = h.pick(), h.pick(), h.pick()
+            st.fresh()
+            tg = st.of(g)
+            want = (tg & st.of(u)) | (st.neg(tg) & st.of(v))
+            ans = h.s.op(0, 'ite', g, u, v)
+            res = h.add(ans)
+            ctx.evaluations += 1
+            if res is None or st.fresh().of(res) != want:
+                ctx.violation('ite wrong on a wide manager', dict(
+                    nvars=nv, lines=list(h.s.lines), got=ans, tags=dict(call='ite-wide')))
+                return h
+        else:
+            held_before = {u: st.fresh().of(u) for u in h.held if abs(u) in h.b._succ}
+            h.step(dict(var=2, hold=6, release=3, gc=2, swap=3, sift=0.3, order=0.3, quantify=1,
+                        cofactor=1))
+            st.fresh()
+            for u, t in held_before.items():
+                if abs(u) in h.b._succ and h.ledger().get(abs(u), 0) > 0 and st.of(u) != t:
+                    ctx.violation('a held reference changed its function on a wide manager', dict(
+                        nvars=nv, ref=u, lines=list(h.s.lines), tags=dict(call='held-wide')))
+                    return h
+        if i % 25 == 24:
+            bad = h.check()
+            if bad:
+                ctx.violation('wide manager damaged', dict(problems=bad[:4], lines=list(h.s.lines),
+                                                           tags=dict(call='invariant-wide')))
+                return h
+    ctx.case((label, 'big-history', nv, len(h.s.lines)))
+    ctx.count('big-history:nodes', len(h.b._succ))
+    return h
 
 
 def _function_operators(ctx):
@@ -578,6 +670,11 @@ def check_C02(ctx):
         h.finish(SECTIONS_L3, 'C02 undeclare template')
     # 4. a manager and its `copy.copy` side by side
     _manager_copies(ctx, 25 if ctx.tier == 'quick' else 250)
+    # 5. wide managers
+    for _ in range(1 if ctx.tier == 'quick' else 8):
+        if ctx.time_left() < 10:
+            break
+        big_history(ctx, 'C02').finish(SECTIONS_L3, 'C02 wide history')
 
 
 def _manager_copies(ctx, n):
@@ -1003,6 +1100,10 @@ def check_C06(ctx):
     ctx.count('short-sequences', count)
     # 2. stale-cache template: warm cache -> drop -> gc -> re-create (number re-used) -> re-ask
     stale_cache_templates(ctx, 80 if ctx.tier == 'quick' else 300, 'C06')
+    for _ in range(2 if ctx.tier == 'quick' else 12):
+        if ctx.time_left() < 10:
+            break
+        big_history(ctx, 'C06').finish(SECTIONS_L3, 'C06 wide history')
     # 2b. every function of three variables (both signs) held through each adjacent swap,
     #     alone and together with a second held function: counts exact after the rooted collection
     sp3 = Space(ABC)
@@ -1231,6 +1332,11 @@ def check_C07(ctx):
         h.finish(SECTIONS_L3, 'C07 bigger')
 
 
+    # 3. wide managers: swaps, sifting and reorder-to-order with thousands of nodes held
+    for _ in range(1 if ctx.tier == 'quick' else 8):
+        if ctx.time_left() < 10:
+            break
+        big_history(ctx, 'C07').finish(SECTIONS_L3, 'C07 wide history')
 # ---------------------------------------------------------------------------
 # C10
 # ---------------------------------------------------------------------------
